@@ -539,6 +539,14 @@ func (c *client) receive(r io.Reader) (err error) {
 		return
 	}
 
+	if m, ok := rpc.(*multi); ok {
+		// results are dispatched to the calls by index, make sure they match
+		if err = m.checkResponse(response); err != nil {
+			err = RetryableError{fmt.Errorf("failed to decode the response: %s", err)}
+			return
+		}
+	}
+
 	var cellsLen uint32
 	if header.CellBlockMeta != nil {
 		cellsLen = header.CellBlockMeta.GetLength()
